@@ -15,7 +15,7 @@ MANIFEST = {
              "and the set of attribute names with the values of all non-cache attributes) must be unchanged; the call "
              "repeated with the well-behaved call-back must return the fault-free answer; afterwards every cached "
              "neighbors() answer must equal the uncached one.",
-    "note": "Bounds: 3 vertices, 2 links (fully symbolic ends and orders), 1 universe; in the quick tier the traversals with call-backs run on one fixed 3-cycle (the fault point, the call-back's answers, the universe and the cache flag stay symbolic). The contents of the per-vertex memo and the class-level statistics "
+    "note": "Bounds: 3 vertices, 2 links (fully symbolic ends and orders), 1 universe; the traversals with call-backs and basic_render(sort=) run on one (quick) / two (thorough) fixed 3-cycles (the fault point, the call-back's answers, the universe and the cache flag stay symbolic). The contents of the per-vertex memo and the class-level statistics "
             "are not observable state; the set of attribute names is. nrpickler.dumps is covered by native replays in "
             "C10 only. Trusted: pysym (validated per path on CPython), z3, the pyvis Network model (validated per path).",
     "design_ref": "DESIGN.md 5 (C13)",
@@ -39,9 +39,10 @@ def configs(tier):
                    "plantuml": ["urf", "none"], "pyvis": ["rvfunc", "refunc"], "pyvis_customizable": ["refunc"]}[e]:
             heavy = e in ("bft", "dft_recursive", "dft_iterative") or (e == "basic_render" and cb == "sort")
             out.append({"entry": e, "callback": cb, "classes": ["DE", "UE", "DE"] if heavy else ["DE", "UE"],
-                        "graph": "fixed" if (heavy and tier == "quick") else "symbolic"})
+                        "graph": "fixed" if heavy else "symbolic"})
             if heavy and tier != "quick":
-                out[-1]["classes"] = ["DE", "UE"]
+                # a second fixed shape in the thorough tier
+                out.append({"entry": e, "callback": cb, "classes": ["UE", "DE", "UE"], "graph": "fixed"})
     # a link that lost one end through the one-sided API (b.remove_from_link(e)): queries may raise, nothing may change
     for e in ("neighbors", "find_links", "bft", "searches", "basic_render", "plantuml", "pyvis"):
         out.append({"entry": e, "callback": "none", "classes": ["DE", "UE"], "graph": "halfopen"})
